@@ -118,6 +118,8 @@ const plantedLine = "bad 300 IN A 999.1.1.1"
 var truncLines = []string{
 	"cut 300 IN MX 10", "cut 300 IN SRV 0 0 53", "cut 300 IN RP hostmaster.example.org.", "cut 300 IN MINFO r.example.org.", "cut 300 IN KX 10", "cut 300 IN RT 10",
 	"cut 300 IN AFSDB 1", "cut 300 IN LP 10", "cut 300 IN PX 10 a.example.org.", "cut 300 IN TALINK a.example.org.", "cut 300 IN NAPTR 100 50 \"s\" \"http\" \"\"", "cut MX 20",
+	// ... or a number: an SOA that ends behind its serial, or two or three fields further on
+	"cut 300 IN SOA ns1.example.org. host.example.org. 2024010101", "cut 300 IN SOA ns1.example.org. host.example.org. 2024010101 7200", "cut 300 IN SOA ns1.example.org. host.example.org. 2024010101 7200 3600 1209600",
 }
 
 // plantedLines: single-line records with one impossible token each (the token is the marker by
